@@ -49,9 +49,11 @@ def model_check_axes(chk, tier):
         chk.add_tlc("L1 %s (scaffold: one task per block, block holds its own slices, written once, any interleaving)" % cfg, res)
         if res.rc != 0:
             chk.violation("L1:CubeAxes:" + ",".join(res.violated + res.action_violated), res.out[-2500:], {"leg": "L1", "cfg": cfg})
-    w = core.run_tlc("MC_CubeAxes.tla", "MC_CubeAxes_witness.cfg", timeout=600)
-    if w.rc == 0:
-        raise core.MachineryFailure("CubeAxes witness (labels appended instead of prepended) was not rejected by TLC")
+    for cfg, what in (("MC_CubeAxes_witness.cfg", "labels appended instead of prepended"),
+                      ("MC_CubeAxes_witness_shared.cfg", "a task's coordinates read back from an attribute all tasks share")):
+        w = core.run_tlc("MC_CubeAxes.tla", cfg, timeout=600)
+        if w.rc == 0:
+            raise core.MachineryFailure("CubeAxes witness (%s) was not rejected by TLC" % what)
 
 
 def _selfnaming(sh, n):
